@@ -91,6 +91,19 @@ def body_year(case):
                                     site="Epoch.get_date", kind="readback",
                                     date=[y, m, d], form=form, got=list(g))
                 n += 1
+            if case.get("deep"):
+                # thorough tier: the same civil day given with a day fraction and with h/m/s
+                for e2, what in ((Epoch(y, m, d + 0.5), "d+0.5"), (Epoch(y, m, d, 12), "12h"),
+                                 (Epoch(y, m, d, 6, 0, 0.0), "6h0m0s")):
+                    want = ref + (0.25 if what == "6h0m0s" else 0.5)
+                    if e2.jde() != want:
+                        raise Violation("Epoch(%r, %r, %r, %s).jde() = %r, want %r" % (y, m, d, what, e2.jde(), want),
+                                        site="Epoch._compute_jde", kind="jde_fraction", date=[y, m, d])
+                    g2 = e2.get_date()
+                    if (g2[0], g2[1], int(g2[2])) != (y, m, d):
+                        raise Violation("Epoch(%r, %r, %r, %s).get_date() = %r" % (y, m, d, what, g2),
+                                        site="Epoch.get_date", kind="readback_fraction", date=[y, m, d])
+                    n += 1
             if prev is not None and j - prev != 1.0:
                 raise Violation("consecutive civil days %r and the day before are %r JD apart"
                                 % ((y, m, d), j - prev), site="Epoch._compute_jde",
@@ -172,14 +185,14 @@ def years_for(tier, seed):
 def tasks(tier, seed):
     ys = years_for(tier, seed)
     nsh = 16 if tier == "quick" else 64
-    out = [Task("t_years", years=ys[i::nsh]) for i in range(nsh)]
+    out = [Task("t_years", years=ys[i::nsh], deep=(tier == "thorough")) for i in range(nsh)]
     out.append(Task("t_anchors"))
     return out
 
 
-def t_years(rec, years):
+def t_years(rec, years, deep=False):
     for y in years:
-        rec.case("year", {"year": y})
+        rec.case("year", {"year": y, "deep": True} if deep else {"year": y})
 
 
 def t_anchors(rec):
